@@ -51,6 +51,35 @@ Norm(P) ==
             ELSE PThresh(m, ret)
          : subs \in {[q \in 1..Len(P.xs) |-> Norm(P.xs[q])]}} : TRUE
 
+(***************************************************************************)
+(* Semantic::entails: both sides are normalised; constants decide; else    *)
+(* the first leaf of the left side is fixed to true and to false on both   *)
+(* sides (satisfy_constraint = substitute, then normalise) and both cases  *)
+(* must entail.  Every round removes one atom from the left side, so the   *)
+(* recursion ends; `fuel` only makes that explicit for TLC.                *)
+(***************************************************************************)
+RECURSIVE FirstConstraint(_)
+FirstConstraint(P) == IF P.p = "thresh" THEN FirstConstraint(P.xs[1]) ELSE P
+
+RECURSIVE Subst(_, _, _)
+Subst(P, w, avail) ==
+  IF P.p = "thresh" THEN [P EXCEPT !.xs = [q \in 1..Len(P.xs) |-> Subst(P.xs[q], w, avail)]]
+  ELSE IF P = w THEN (IF avail THEN PTrivial ELSE PUnsat)
+  ELSE P
+SatisfyConstraint(P, w, avail) == Norm(Subst(P, w, avail))
+
+RECURSIVE EntailsNorm(_, _, _)
+\* a, c already normalised
+EntailsNorm(a, c, fuel) ==
+  IF a.p = "unsat" THEN TRUE
+  ELSE IF a.p = "trivial" THEN c.p = "trivial"
+  ELSE IF c.p = "unsat" THEN FALSE
+  ELSE IF fuel = 0 THEN FALSE
+  ELSE LET w == FirstConstraint(a) IN
+       /\ EntailsNorm(SatisfyConstraint(a, w, TRUE), SatisfyConstraint(c, w, TRUE), fuel - 1)
+       /\ EntailsNorm(SatisfyConstraint(a, w, FALSE), SatisfyConstraint(c, w, FALSE), fuel - 1)
+EntailsAlg(A, C) == EntailsNorm(Norm(A), Norm(C), Cardinality(Atoms(A)) + 1)
+
 \* normal form: no constant below the root
 RECURSIVE NoConstInside(_, _)
 NoConstInside(P, top) ==
